@@ -421,6 +421,16 @@ def check_swan_variants(case, ctx):
         written = asc.copy() if ndir else ((270.0 - asc) % 360.0)
         if not ndir:
             written = np.where(written > 180, written - 360, written)
+        else:
+            # nautical listings also come with other whole-turn representatives: negative labels beyond 180 (SWAN's usual
+            # 265, 255, ..., 5, -5, ..., -85 style) or north written as 360
+            rep = ["plain", "plain", "negative", "north-as-360", "plus-turn-top"][case.get("opt", 0) % 5]
+            if rep == "negative":
+                written = np.where(written > 180, written - 360, written)
+            elif rep == "north-as-360":
+                written = np.where(written == 0.0, 360.0, written)
+            elif rep == "plus-turn-top":
+                written = np.where(written < 90.0, written + 360.0, written)
         written = np.roll(written, v)
         nautical = written % 360.0 if ndir else (270.0 - written) % 360.0
         nloc = [1, 2, 3][v // 2 % 3]
@@ -466,7 +476,7 @@ def check_swan_variants(case, ctx):
     finally:
         shutil.rmtree(w, ignore_errors=True)
     ctx.nt(True)
-    ctx.label("swan", "NDIR" if ndir else "CDIR", "time=%s" % with_time, "units=%s" % ("J" if energy else "m2"), "gz=%s" % gz, "nloc=%d" % nloc)
+    ctx.label("swan", "NDIR" if ndir else "CDIR", "labels=" + (rep if ndir else "cartesian"), "time=%s" % with_time, "units=%s" % ("J" if energy else "m2"), "gz=%s" % gz, "nloc=%d" % nloc)
     ctx.show(dict(format="swan", variant=v, ndir=ndir, with_time=with_time, energy_units=energy, nloc=nloc, nf=nf, nd=nd, gz=gz))
 
 
